@@ -324,6 +324,35 @@ func runC10(w *fw.W) {
 		w.End(fw.Result{Verdict: fw.Held, Evals: 0, Counters: map[string]int{"square_pairs": 81}})
 	}
 
+	// 1b. zero divisors of every int-like kind (plain 0, false, nil-as-0 is excluded, typed zeros of Int descendants, computed zeros)
+	if w.Take() {
+		setup()
+		w.Begin("zero divisors of every int-like kind", nil)
+		var vs violSet
+		n := 0
+		zeros := []string{"0", "false", "Int.bear.new(0)", "(Z := Int.bear; Z.new(3) - Z.new(3))", "(5 - 5)", "(0 * 7)", "-0", "[].len", "Int.bear({k: 1}).new(0)", "0.0.I"}
+		nums := []string{"7", "-7", "0", "9223372036854775807", "Int.bear.new(6)", "true"}
+		for _, z := range zeros {
+			zo := ip.Run(z, interp.Options{})
+			if !zo.OK() {
+				continue
+			}
+			for _, a := range nums {
+				for _, op := range []string{"/", "//", "%"} {
+					src := fmt.Sprintf("%s %s %s", a, op, z)
+					o := ip.Run(src, interp.Options{})
+					n++
+					if o.Panic != "" || o.Err == nil || o.ErrKind != "ZeroDivisionErr" {
+						vs.add("C10|"+op+"|zero-divisor-no-ZeroDivisionErr", fmt.Sprintf("%s → %s, want ZeroDivisionErr", src, o.Outcome()), src)
+					}
+				}
+			}
+		}
+		r := fw.Result{Verdict: fw.Held, Evals: n, Counters: map[string]int{"zero_divisor_cases": n, "judged": n}, DKeys: []string{"zero-divisor-kinds"}}
+		vs.finish(&r)
+		w.End(r)
+	}
+
 	// 2. boundary table, all pairs; one row per case
 	bnd := c10Boundary()
 	for _, a := range bnd {
